@@ -17,6 +17,26 @@ CLAIMS = {
    note="Bounded: 3-4 accounts, 2 denominations, coin lists up to 3 coins over small amounts, supply <= Cap exhaustively; amounts scaled linearly up to 2^128-1; random histories (5 accounts, 3 denominations, hundreds of operations) validated by TLC. Trusted: TLC, cosmwasm-std queries."),
 }
 
+def _chain(pid, what, design):
+    return dict(engine="chain", design=design,
+      technique="TLC exhaustive enumeration of spec/Chain.tla + ChainGen.tla (transaction evaluator mirroring app.rs/wasm.rs, programs generated lazily in invocation order; declarative log-based invariants InvAtomic/InvEffective/InvReads/InvReply/InvEvents checked on every completed call) + replay of every generated call on a real App with scripted contracts, first-divergence attribution to the property's observables",
+      text="Bounded exhaustive model checking of the transactional machine in TLA+ and conformance of the real code to it: every program TLC enumerates is executed on a real App (scripted contracts report what they are told and can read at every entry-point invocation) and compared with the specification's prediction. " + what,
+      note="Bounded by Fuel (contract invocations per transaction), MaxTx and the per-property menus in spec/mc/MC_Chain.tla; contracts are scripted (arbitrary effects/queries/failures, not arbitrary Rust); error texts, gas, msg_responses not compared. Trusted: TLC, cosmwasm-std mocks (MockApi, MockStorage), the harness's protobuf encoder for response data.")
+
+CLAIMS.update({
+ "C01": _chain("C01", "Focus: Ok/Err, responses per message, full post-state, raw storage byte-identical after Err.", "6/C01"),
+ "C02": _chain("C02", "Focus: what later invocations can read after a caught/uncaught failure, Ok/Err, post-state.", "6/C02"),
+ "C03": _chain("C03", "Focus: exact sequence of entry-point invocations and the id/payload/result of each Reply.", "6/C03"),
+ "C04": _chain("C04", "Focus: exact events and data bytes of every response and of every Reply.", "6/C04"),
+ "C05": _chain("C05", "Focus: sender, own address, block, funds told and visible balances at every invocation; no invocation on overdraw.", "6/C05"),
+ "C08": _chain("C08", "Focus: every contract's storage through four views at every invocation and after the call.", "6/C08"),
+ "C10": _chain("C10", "Focus: query battery at every invocation (incl. after caught failures) and query purity/repeatability through App.", "6/C10"),
+ "C11": _chain("C11", "Focus: code ids, CodeInfo, address binding (functional, injective), ContractInfo, serving code.", "6/C11"),
+ "C12": _chain("C12", "Focus: Ok/Err of Migrate/UpdateAdmin/ClearAdmin, code id/admin/storage afterwards, serving code.", "6/C12"),
+ "C13": _chain("C13", "Focus: Ok/Err for every class string as attribute key / event type, emitted events unchanged, rollback.", "6/C13"),
+ "C17": _chain("C17", "Focus: which module was called with which sender and payload, Ok/Err, rollback on module failure.", "6/C17"),
+})
+
 def main():
     props = [json.loads(l) for l in open(os.path.join(ROOT, "properties.jsonl"))]
     checks, na = [], []
